@@ -185,7 +185,8 @@ class UnitD(Unit):
         close_container(out, im, f)
 
     def props_of(self, ob):
-        return ['C13'] if ob.endswith('#safety') else ['C10']
+        # the prefix -> namespace table is also the first mechanism of C09 (a reference denotes the namespace bound to its prefix)
+        return ['C13'] if ob.endswith('#safety') else ['C10', 'C09']
 
     def trusted_base(self):
         return list(self._trusted)
